@@ -76,18 +76,17 @@ Theorem C01_save_refuses : forall (S : sig) o (f : font S),
   (m_version (f_meta S f) = 3 -> d_get S OBJ (f_lib S f) <> None -> save S o f = Err SPreexistingObjectLibs).
 Proof. exact save_refuses. Qed.
 
-(** Numbers: the three integer-or-float writers replace [v] by an integer [t] only when
-    |v - t| <= 2^-52.  The written value is within the property's tolerance (1e-9 relative) exactly
-    outside the class "a non-zero number written as 0"; the class is inhabited (2^-60), so the full
-    statement "every number survives within 1e-9" is refuted for the writers as they are. *)
-Theorem C01_written_integer_within_tolerance_iff : forall (v : Q) (t : Z),
-  written_as_integer v t -> (within v (inject_Z t) <-> ~ KnownClass_flush_to_zero v t).
-Proof. exact written_within_iff. Qed.
-Definition C01_numbers_full : Prop := forall (v : Q) (t : Z), written_as_integer v t -> within v (inject_Z t).
-Theorem C01_refuted_flush_to_zero : ~ C01_numbers_full.
-Proof.
-  intros H. destruct flush_to_zero_witness as [H1 H2]. apply H2. apply H. exact H1.
-Qed.
+(** Numbers: the three integer-or-float writers (kerning, font info, unitsPerEm) write [v] as an
+    integer [t] only when [v] is exactly [t] (cf70ca2); so the written value is the same value, a
+    fortiori within the property's 1e-9.  Regression examples: 2^-60 and 1 + 2^-52, which the
+    writers used to turn into 0 and 1, are not written as integers. *)
+Theorem C01_written_integer_exact : forall (v : Q) (t : Z),
+  written_as_integer v t -> v == inject_Z t /\ within v (inject_Z t).
+Proof. exact written_exact. Qed.
+Example C01_tiny_number_not_flushed : ~ written_as_integer (1 # 1152921504606846976) 0.
+Proof. exact tiny_not_integer. Qed.
+Example C01_near_integer_not_rounded : ~ written_as_integer (4503599627370497 # 4503599627370496) 1.
+Proof. exact near_one_not_integer. Qed.
 
 (** Non-vacuity: the laws have a model; the example font is valid and its saved tree is exactly
     these files; the empty font is valid and saves three files. *)
